@@ -86,6 +86,8 @@ type Fake struct {
 	Next       map[string]Outcome
 	SnapFail   bool
 	RevFail    bool  // next SetRevisionCounter fails
+	// FailNextMgmt: the next management call whose name starts with this string fails (admission steps of an add)
+	FailNextMgmt string
 	GetDelayMs int32 // REST GET answered this late (atomic)
 	CpFail     bool
 	ResizeFail bool
@@ -277,6 +279,10 @@ func (c *Conn) mgmt(name string) error {
 	if atomic.LoadInt32(&c.closed) != 0 {
 		f.IOAfterClose = append(f.IOAfterClose, name)
 		return fmt.Errorf("connection closed")
+	}
+	if f.FailNextMgmt != "" && strings.HasPrefix(name, f.FailNextMgmt) {
+		f.FailNextMgmt = ""
+		return fmt.Errorf("scripted %s failure", name)
 	}
 	return nil
 }
